@@ -386,7 +386,8 @@ class WorldScenario:
                 if dry:
                     would = w.parse_would_submit(res.output)
                     plan = w.m_plan(patterns, pre_status)
-                    if None not in pre_status.values() and sorted(would) != sorted(plan):
+                    if None not in pre_status.values() and "live" not in pre_status.values() \
+                            and sorted(would) != sorted(plan):
                         w.flag("C05", "dry_run_set", f"dry-run {patterns} lists {sorted(would)}, plan {sorted(plan)}")
                         w.flag("C02", "dry_run_set", f"dry-run {patterns} lists {sorted(would)}, plan {sorted(plan)}")
                     if res.accepted:
@@ -543,7 +544,7 @@ class WorldScenario:
         argv += ["-f", op["format"]]
         argv += op["patterns"]
         full = w.m_status()
-        if None in full.values():
+        if None in full.values() or "live" in full.values():
             return
         res = w.gwf(argv, op.get("cwd", "root"))
         self._exit_ok(w, res, argv)
